@@ -30,7 +30,8 @@ Section Clip.
       (s_stroke_width sh) (s_linecap sh) (s_linejoin sh) (s_miterlimit sh) (s_dasharray sh) (s_dashoffset sh) (s_stroke_opacity sh)
       (s_opacity sh) (s_transform sh) (s_style sh) (s_display sh) d.
 
-  (* one shape: None = dropped (entirely outside); otherwise kept as is or cut at the border *)
+  (* one shape: None = dropped (its box misses the viewBox, or - fix 413baa0 - the intersection came back empty);
+     otherwise kept as is or cut at the border *)
   Definition clip_shape (vb : Rect N) (sh : @shape N) : result (option (@shape N)) :=
     match shape_bbox sh with
     | Err e => Err e
@@ -45,6 +46,7 @@ Section Clip.
               | Some r =>
                   let subject := absolute (s_d sh) in
                   match do_pathop sk OpIntersection [(as_cmd_seq MO subject, r); (as_cmd_seq MO (rect_path isct), NonZero)] with
+                  | Ok (Some []) => Ok None
                   | Ok (Some q) => Ok (Some (with_geom sh q "nonzero"))
                   | Ok None => Err EOther
                   | Err e => Err e
